@@ -33,21 +33,35 @@ ENCODED = [
     "tensorly.tenalg.proximal.soft_thresholding",
 ]
 BOUNDS = {
-    "quick": "matrices m x n with m,n in {1,2,3} (value obligations up to 3x3, orthonormal 3x3 factors by Givens generation), n_eigenvecs in {None,1..max(m,n)+1}",
-    "thorough": "same shapes; additionally 3x3 symeig / flip / NNDSVD value obligations and every (shape, n_eigenvecs) pair through svd_interface",
+    "quick": "matrices m x n with m,n in {1,2,3}, n_eigenvecs in {None,1..max(m,n)+1}: truncated_svd (all, Givens-orthonormal contract factors), svd_flip on arbitrary "
+    "factors in every factor shape svd_interface produces (the 729-path cases only for 3x3), svd_interface+truncated_svd with sign resolution on U or V (dimension-3 "
+    "cases with at most two deciding 3-vectors; dimension 3 uses fresh factors + orthonormality facts), symeig_svd against the eigh contract (all shapes; exact product for "
+    "square <= 2x2), symeig_svd on generated inputs (shapes <= 2x2 and 1x3 / 3x1), NNDSVD / NNDSVDa on generated inputs <= 2x2, dispatcher, one imputation sweep "
+    "(2x2, 2x3, 3x2), randomized_svd shape logic (all shapes, n_oversamples in {0,1,5})",
+    "thorough": "same, with every svd_flip factor shape, every (shape, n_eigenvecs, side) through svd_interface, sign resolution after symeig_svd for every n_eigenvecs, 3x3 imputation, n_iter in {0,1} for randomized_svd",
 }
 OUTSIDE = [
     "NOT APPLICABLE: 'singular values equal the true leading singular values' and 'the product is a best rank-k approximation (error = norm of the discarded "
-    "singular values)' -- that is LAPACK's theorem; it is the assumed contract of tl.svd / tl.eigh, not something tensorly computes",
+    "singular values)' -- that is LAPACK's theorem; it is the assumed contract of tl.svd / tl.eigh, not something tensorly computes. Claimed instead: the returned triple is the "
+    "leading slice of the contract triple, and the product is exact when nothing is discarded",
     "NOT APPLICABLE: accuracy of randomized_svd 'whenever rank + oversampling covers the matrix rank' -- chained QR factorisations of products with a Gaussian "
     "matrix; the nonlinear real-arithmetic problem is out of reach. Only its shape / clamping / transposition logic is executed (RNG, qr and svd stubs)",
-    "integer dtype inputs (no dtypes in the symbolic domain; observed outside the solver: svd_interface(int matrix, non_negative=True) raises ValueError from finfo)",
+    "symeig_svd: derived factor / exact product for 2x3, 3x2, 3x3 (rational identities over a 3x3 Givens frame: unknown at 120 s per entry); NNDSVD for 2x3 / 3x2 and larger (same reason)",
+    "'finite' (no 0/0 in NNDSVD) is stated for distinct positive singular values only; for repeated / zero singular values the contract leaves the vectors open and LAPACK's choice decides",
+    "that an imputed result is independent of the values stored at masked positions: false by design (the first factorisation uses them); checked instead: what the second factorisation is applied to",
+    "integer dtype inputs (no dtypes in the symbolic domain; observed outside the solver: svd_interface(int matrix, non_negative=True) raises ValueError from tl.eps/finfo(int64))",
     "shapes above 3x3; n_iter_mask_imputation > 1; orthonormal frames that need a Givens half-angle parameter at infinity (rotation by pi)",
     "IEEE rounding (real arithmetic; counterexamples are replayed in float64 with real LAPACK)",
 ]
-TRUSTED = ["z3", "contract stubs of tl.svd / tl.eigh / tl.qr and the Givens generator in vt/backend.py", "NumPy object-dtype structural operations"]
+TRUSTED = [
+    "z3 (one-shot nlsat queries for rational identities, incremental queries on fork decisions)",
+    "contract stubs of tl.svd / tl.eigh / tl.qr and the Givens generators (vt/backend.py, frame() here)",
+    "input-from-output generation: M := U0 diag(s) V0^T covers every real matrix",
+    "NumPy object-dtype structural operations",
+]
 ASSUMPTIONS = [
     "tl.svd returns U (orthonormal columns), S sorted non-increasing >= 0, V (orthonormal rows) with U[:, :r] diag(S) V[:r] = M; tl.eigh returns ascending eigenvalues and an orthonormal eigenbasis; tl.qr returns Q with orthonormal columns",
+    "svd_flip: deciding vectors are non-zero (what happens otherwise is reported by the symeig 'any' / 'deficient' configurations)",
     "real arithmetic; divisions defined unless an obligation named 'finite' says otherwise",
 ]
 
@@ -109,7 +123,7 @@ def configs(tier):
                     for rank in ("full", "deficient"):
                         add(f"symeig/generated/{m}x{n}/k{k}/{rank}", "symeig_gen", m=m, n=n, k=k, rank=rank, cost=30 if min(m, n) > 1 else 1)
     # non_negative option through svd_interface (default method, sign resolution on): NNDSVDa (True / "nndsvda") and NNDSVD
-    nn_shapes = [(1, 1), (1, 2), (2, 1), (2, 2)] + ([] if q else [(2, 3), (3, 2)])
+    nn_shapes = [(1, 1), (1, 2), (2, 1), (2, 2)]  # 2x3 and 3x2 (3x3 Givens frame inside the fork conditions): undecided at 120 s per query
     for m, n in nn_shapes:
         for k in [None] + list(range(1, max(m, n) + 1)):
             for variant in ("True", "nndsvda", "nndsvd"):
@@ -225,6 +239,41 @@ def frame(E, name, n):
         for j in range(n):
             out[i, j] = Q[j][i]
     return out
+
+
+def generated_matrix(E, m, n):
+    """input-from-output generation: M := U0[:, :r] diag(s) V0[:, :r]^T with U0 (m x m), V0 (n x n) orthogonal (Givens parameters
+    and a sign for the last column: both determinants) and s sorted >= 0; in symbolic mode tl.svd(M) is made to answer with that
+    triple (any other argument gets fresh, contract-shaped outputs).  Every real M arises this way; replay recomputes M in floats."""
+    from vt import backend
+
+    r = min(m, n)
+    U0, V0 = frame(E, "tU", m), frame(E, "tV", n)
+    sg = E.real("sg", (2,), lo=-1, hi=1)
+    E.assume([E.eq(sg[0] * sg[0], 1), E.eq(sg[1] * sg[1], 1)])
+    U0[:, m - 1] = U0[:, m - 1] * sg[0]
+    V0[:, n - 1] = V0[:, n - 1] * sg[1]
+    sv = E.real("s", (r,), nn=True)
+    E.assume([E.ge(sv[i], sv[i + 1]) for i in range(r - 1)])
+    M = np.empty((m, n), dtype=object if E.symbolic else float)
+    for i in range(m):
+        for j in range(n):
+            M[i, j] = sum((U0[i, a] * sv[a] * V0[j, a] for a in range(r)), 0)
+    if E.symbolic:
+        from vt.sym import sarr
+
+        M = sarr(M)
+        Mgen, Ug, Sg, Vg = M, sarr(U0), sarr(sv), sarr(V0.T)
+
+        def gen_svd(A, full_matrices):
+            if backend._same_array(A, Mgen):
+                return (Ug.copy(), Sg.copy(), Vg.copy()) if full_matrices else (Ug[:, :r].copy(), Sg.copy(), Vg[:r, :].copy())
+            a, b = A.shape
+            rr = min(a, b)
+            return backend.fresh_array("svdU", (a, a if full_matrices else rr)), backend.sorted_nonneg("svdS", rr), backend.fresh_array("svdV", (b if full_matrices else rr, b))
+
+        backend.configure(svd=gen_svd)
+    return M, sv
 
 
 def assume_or_abort(E, conds):
@@ -511,33 +560,11 @@ def harness(E, cfg):
         if rr == r:
             prove_product(E, "product_exact", U, S, V, r, M)
     elif part == "nn":
-        # input-from-output generation: M := U0[:, :r] diag(s) V0[:, :r]^T with U0, V0 orthogonal (Givens parameters and a sign for
-        # the last column: both determinants), s sorted >= 0; tl.svd(M) answers with that triple.  Every M arises this way.
         m, n, k, variant, inp = cfg["m"], cfg["n"], cfg["k"], cfg["variant"], cfg["inp"]
         r = min(m, n)
-        U0, V0 = frame(E, "tU", m), frame(E, "tV", n)
-        sg = E.real("sg", (2,), lo=-1, hi=1)
-        E.assume([E.eq(sg[0] * sg[0], 1), E.eq(sg[1] * sg[1], 1)])
-        U0[:, m - 1] = U0[:, m - 1] * sg[0]
-        V0[:, n - 1] = V0[:, n - 1] * sg[1]
-        sv = E.real("s", (r,), nn=True)
-        E.assume([E.ge(sv[i], sv[i + 1]) for i in range(r - 1)])
-        M = np.empty((m, n), dtype=object if E.symbolic else float)
-        for i in range(m):
-            for j in range(n):
-                M[i, j] = sum((U0[i, a] * sv[a] * V0[j, a] for a in range(r)), 0)
+        M, sv = generated_matrix(E, m, n)
         if E.symbolic:
             from vt import sym
-            from vt.sym import sarr
-
-            M = sarr(M)
-            Mgen, Ug, Sg, Vg = M, sarr(U0), sarr(sv), sarr(V0.T)
-
-            def gen_svd(A, full_matrices):
-                assert backend._same_array(A, Mgen), "unexpected SVD argument"
-                return (Ug.copy(), Sg.copy(), Vg.copy()) if full_matrices else (Ug[:, :r].copy(), Sg.copy(), Vg[:r, :].copy())
-
-            backend.configure(svd=gen_svd)
         if inp == "mean_nonneg":
             E.assume(E.ge(sum(M.ravel()), 0))
         nd0 = len(sym.CTX.dens) if E.symbolic else 0
@@ -629,9 +656,9 @@ def harness(E, cfg):
         check_flip(E, U, S, V, U2, V2, ub)
     elif part == "mask":
         m, n, k, it, pat = cfg["m"], cfg["n"], cfg["k"], cfg["it"], cfg["pat"]
-        if E.symbolic:
-            backend.configure(svd="factor")
-        M = E.real("M", (m, n))
+        # generated input with distinct singular values: the rank-k truncation is then unique, so a counter-model is one for LAPACK too
+        M, sv = generated_matrix(E, m, n)
+        E.assume([E.gt_strict(sv[i], sv[i + 1]) for i in range(min(m, n) - 1)])
         mask = np.ones((m, n))
         if pat == "one_missing":
             mask[0, n - 1] = 0
